@@ -847,6 +847,7 @@ impl<'a> Searcher<'a> {
         if let Some(ref _function) = column_expr.function {
             let result =
                 self.get_function_value(entry, file_info, file_map, buffer_data, column_expr);
+            let result = Self::apply_sign(result, column_expr.minus);
             file_map.insert(column_expr_str, result.to_string());
             return result;
         }
@@ -854,6 +855,7 @@ impl<'a> Searcher<'a> {
         if let Some(ref field) = column_expr.field {
             if entry.is_some() {
                 let result = self.get_field_value(entry.unwrap(), file_info, field);
+                let result = Self::apply_sign(result, column_expr.minus);
                 file_map.insert(column_expr_str, result.to_string());
                 return result;
             } else if let Some(val) = file_map.get(&field.to_string()) {
@@ -890,6 +892,22 @@ impl<'a> Searcher<'a> {
         }
 
         result
+    }
+
+    /// A leading minus negates a numeric column or function value.
+    fn apply_sign(value: Variant, minus: bool) -> Variant {
+        if !minus {
+            return value;
+        }
+
+        match value.get_type() {
+            VariantType::Int => Variant::from_int(-value.to_int()),
+            VariantType::Float => Variant::from_float(-value.to_float()),
+            _ => match value.to_string().parse::<f64>() {
+                Ok(number) => Variant::from_float(-number),
+                _ => value,
+            },
+        }
     }
 
     fn get_function_value(
